@@ -6,6 +6,8 @@ package main
 // word alphabet, random strings, structured queries rendered through the grammar of doc/queries.md, and
 // one-edit mutations of rendered queries). A panic kills the worker and is reported by the parent as a crash.
 //
+// Driver C12c (c12cli.go): the `git-bug bug` command as a process, from argv to the listed ids.
+//
 // Driver C12e: generated populations (1-4 identities, 1-30 bugs in one or two go-git repositories merged into
 // one) behind a real cache.RepoCache; a batch of structured queries is parsed with query.Parse and evaluated
 // with RepoCacheBug.Query (twice). The reference data is read from the resolved snapshots.
@@ -252,7 +254,22 @@ func c12AllStrings(alpha []string, maxLen int, emit func(string)) {
 
 func c12Mutate(r *Rand, s string) string {
 	b := []byte(s)
-	switch r.Intn(8) {
+	switch r.Intn(9) {
+	case 8: // an empty chunk: a colon next to a colon
+		var idx []int
+		for i, c := range b {
+			if c == ':' {
+				idx = append(idx, i)
+			}
+		}
+		if len(idx) > 0 {
+			i := idx[r.Intn(len(idx))]
+			n := 1
+			if r.Chance(1, 4) {
+				n = 2
+			}
+			b = append(b[:i:i], append([]byte(strings.Repeat(":", n)), b[i:]...)...)
+		}
 	case 0: // delete a byte
 		if len(b) > 0 {
 			i := r.Intn(len(b))
@@ -309,7 +326,7 @@ func (c12pDriver) Gen(r *Rand, tier string) []json.RawMessage {
 	}
 	c12AllStrings(chars, n1, func(s string) { res = append(res, c12Raw("exh-chars", s)) })
 	// (b) every string up to a small length over an alphabet of words of the language
-	words := []string{`"`, "'", ":", " ", "x", "author", "status", "open", "sort", "id", "no", "label", "metadata", "edit-asc"}
+	words := []string{`"`, "'", ":", "::", " ", "x", "author", "status", "open", "sort", "id", "no", "label", "metadata", "edit-asc"}
 	n2 := 3
 	if thorough {
 		n2 = 4
@@ -498,12 +515,25 @@ var c12NameQueries = []string{"descartes", "DESCARTES", "rené", "RENÉ", "René
 var c12Labels = []string{"bug", "Bug", "Good first issue", "prod", "a:b", "wontfix"}
 var c12LabelQueries = []string{"bug", "Bug", "BUG", "Good first issue", "good first issue", "prod", "a:b", "wontfix", "zzz", "Good"}
 var c12MetaKeys = []string{"origin", "k", "github-id"}
-var c12MetaVals = []string{"github", "gitlab", "a:b c", "1"}
+var c12MetaVals = []string{"github", "gitlab", "a:b c", "1", "u?id=12", "u?id", "k=v=w"}
 var c12TitleQueries = []string{"zork", "ZORK", "Zork quux", "qu", "émile", "über", "ÜBER", "blip frob", "x", "", " ", "glorp", "p s"}
 
+// what stands between two words of a text: mostly a space, now and then punctuation (all of it cuts words for the
+// index, see c12Neutral)
+var c12Joiners = []string{" -> ", "/", "://", " >= ", "-", " (", ") ", ", ", ": ", " = ", ". ", " + ", "!", " | ", "? ", "\\"}
+
+func c12ASCII(w string) bool {
+	for _, c := range w {
+		if c > 127 {
+			return false
+		}
+	}
+	return w != ""
+}
+
 func c12Words(r *Rand, n int) string {
-	ws := make([]string, n)
-	for i := range ws {
+	var sb strings.Builder
+	for i := 0; i < n; i++ {
 		w := c12Lexicon[r.Intn(len(c12Lexicon))]
 		switch r.Intn(4) {
 		case 0:
@@ -511,9 +541,49 @@ func c12Words(r *Rand, n int) string {
 		case 1:
 			w = strings.ToUpper(w)
 		}
-		ws[i] = w
+		if i > 0 {
+			if r.Chance(1, 5) {
+				sb.WriteString(c12Joiners[r.Intn(len(c12Joiners))])
+			} else {
+				sb.WriteString(" ")
+			}
+		}
+		sb.WriteString(w)
 	}
-	return strings.Join(ws, " ")
+	return sb.String()
+}
+
+// shapes of a search term that is not a plain word: operators of bleve's query string language around or between
+// words (%w, %v: two words, adjacent in some text of the population more often than not), or alone
+var c12Deco = []string{"-%w", "+%w", "!%w", "%w^2", "%w~", "%w~2", "%w*", "(%w)", "[%w]", "{%w}", "%w->%v", "%w>=%v", "%w=>%v", "%w/%v",
+	"%w://%v", "%w=%v", "%w&&%v", "%w||%v", `"%w"`, `%w\%v`, "%w: %v", "%w :%v", "%w:/%v", "<%w", "%w?", "/%w/", "-%w %v", "%w -%v", "+%w +%v",
+	"%w:", "%w (%v)", "%w, %v", "%w-%v", "-%w-%v",
+	"->", ">=", "=>", "<", "^", "~", "-", "/", "+", "!", "&&", "||", `\`, "*", "?", "(", ")", "-> =>", "~2"}
+
+// c12Word: is r part of a word for the full-text index (mirror of QueryEval.is_word_rune)
+func c12Word(r rune) bool {
+	return (r >= '0' && r <= '9') || (r >= 'A' && r <= 'Z') || (r >= 'a' && r <= 'z') || r >= 128
+}
+
+// c12Neutral: the index (unicode word segmentation) cuts s into words exactly where c12Tokens does: letters and
+// digits are the code points c12Word says, no underscore, and none of . : ' , ; between two word code points
+// (there the segmentation keeps one word: example.com, it's, a:b, 1,5)
+func c12Neutral(s string) bool {
+	rs := []rune(s)
+	for i, r := range rs {
+		if (unicode.IsLetter(r) || unicode.IsDigit(r)) != c12Word(r) {
+			return false
+		}
+		switch r {
+		case '_':
+			return false
+		case '.', ':', '\'', ',', ';':
+			if i > 0 && i+1 < len(rs) && c12Word(rs[i-1]) && c12Word(rs[i+1]) {
+				return false
+			}
+		}
+	}
+	return true
 }
 
 func c12Subset(r *Rand, xs []string, max int) []string {
@@ -705,6 +775,25 @@ func c12GenQuery(r *Rand, in *c12eInput) []c12Item {
 		case "search":
 			for i := 0; i < reps; i++ {
 				if r.Chance(1, 3) {
+					// a term with operators of the index's query string language in it
+					w, v := pick(c12SearchWords), pick(c12SearchWords)
+					if r.Chance(2, 3) {
+						b := in.Bugs[r.Intn(len(in.Bugs))]
+						ws := c12Tokens(b.Title + " " + b.Msg)
+						k := r.Intn(len(ws))
+						if c12ASCII(ws[k]) {
+							w = ws[k]
+							if k+1 < len(ws) && c12ASCII(ws[k+1]) {
+								v = ws[k+1]
+							}
+						}
+					}
+					if r.Chance(1, 4) {
+						w = strings.ToUpper(w)
+					}
+					t := strings.ReplaceAll(strings.ReplaceAll(c12Deco[r.Intn(len(c12Deco))], "%w", w), "%v", v)
+					add("search", t)
+				} else if r.Chance(1, 2) {
 					// a phrase: two or three words in a row of some text of the population, or any two words
 					b := in.Bugs[r.Intn(len(in.Bugs))]
 					ws := c12Tokens(b.Title + " " + b.Msg)
@@ -734,7 +823,11 @@ func c12GenQuery(r *Rand, in *c12eInput) []c12Item {
 					tagPhrase := strings.Join(ph, " ")
 					items = append(items, c12Item{K: "search", V: c12Val{S: 1 + r.Intn(2), T: tagPhrase}})
 				} else {
-					add("search", pick(c12SearchWords))
+					w := pick(c12SearchWords)
+					if r.Chance(1, 5) {
+						w = strings.ToUpper(w)
+					}
+					add("search", w)
 				}
 			}
 		}
@@ -816,16 +909,59 @@ func c12DrainMerge(ch <-chan entity.MergeResult) error {
 	return first
 }
 
-func (c12eDriver) Run(raw json.RawMessage) Case {
-	var in c12eInput
-	if err := json.Unmarshal(raw, &in); err != nil || len(in.Idents) == 0 || len(in.Bugs) == 0 {
-		return Case{Skip: "bad input"}
+// c12RefBug: a bug as read back from its resolved snapshot (the reference data of the evaluation)
+type c12RefBug struct {
+	Id           string            `json:"id"`
+	Rank         int               `json:"rank"`
+	Status       string            `json:"status"`
+	Title        string            `json:"title"`
+	Labels       []string          `json:"labels"`
+	Author       int               `json:"author"`
+	Actors       []int             `json:"actors"`
+	Participants []int             `json:"participants"`
+	Meta         map[string]string `json:"meta"`
+	Keys         [4]uint64         `json:"keys"`
+}
+
+// c12Pop: a generated population behind a real cache
+type c12Pop struct {
+	dir        string
+	rc         *cache.RepoCache
+	identsA    []*identity.Identity
+	identTerms []string
+	bugTerms   []string
+	refs       []c12RefBug
+	rk         ranker
+	lowerOK    bool
+	neutral    bool // every indexed text is cut into words by the index as by c12Tokens
+	needB      bool
+	tieC, tieE map[[2]uint64]int
+	nClosed    int
+	nLabeled   int
+	cleanup    []func()
+}
+
+func (p *c12Pop) close() {
+	for i := len(p.cleanup) - 1; i >= 0; i-- {
+		p.cleanup[i]()
 	}
+	p.cleanup = nil
+}
+
+// c12BuildPop creates the identities and bugs of the input in one or two go-git repositories, merges them and
+// builds a cache on the result; a non-empty string is the reason why the scenario could not be built
+func c12BuildPop(in *c12eInput) (*c12Pop, string) {
+	p := &c12Pop{lowerOK: true, neutral: true, tieC: map[[2]uint64]int{}, tieE: map[[2]uint64]int{}}
 	dir, err := os.MkdirTemp("", "verif-c12-")
 	if err != nil {
 		panic(err)
 	}
-	defer os.RemoveAll(dir)
+	p.dir = dir
+	p.cleanup = append(p.cleanup, func() { os.RemoveAll(dir) })
+	fail := func(why string) (*c12Pop, string) {
+		p.close()
+		return nil, why
+	}
 	repoA, err := newTestRepo(dir+"/a", false)
 	if err != nil {
 		panic(err)
@@ -843,14 +979,14 @@ func (c12eDriver) Run(raw json.RawMessage) Case {
 		for try := 0; try < 200; try++ {
 			id, err = identity.NewIdentityFull(repoA, d.Name, fmt.Sprintf("u%d@example.org", i), d.Login, "", nil)
 			if err != nil {
-				return Case{Skip: "identity: " + err.Error()}
+				return fail("identity: " + err.Error())
 			}
 			if !(in.Share && i == 1) || string(id.Id())[0] == string(identsA[0].Id())[0] {
 				break
 			}
 		}
 		if err := id.Commit(repoA); err != nil {
-			return Case{Skip: "identity commit: " + err.Error()}
+			return fail("identity commit: " + err.Error())
 		}
 		identsA = append(identsA, id)
 	}
@@ -860,9 +996,14 @@ func (c12eDriver) Run(raw json.RawMessage) Case {
 	// now and then; it belongs to the cache properties, not to this one).
 	rc, err := cache.NewRepoCacheNoEvents(repoA)
 	if err != nil {
-		return Case{Skip: "cache: " + err.Error()}
+		return fail("cache: " + err.Error())
 	}
-	defer rc.Close()
+	p.rc = rc
+	p.cleanup = append(p.cleanup, func() {
+		if p.rc != nil {
+			p.rc.Close()
+		}
+	})
 	idents := [][]*identity.Identity{identsA}
 	repos := []repository.TestedRepo{repoA}
 	if needB {
@@ -870,18 +1011,18 @@ func (c12eDriver) Run(raw json.RawMessage) Case {
 		if err != nil {
 			panic(err)
 		}
-		defer repoB.Close()
+		p.cleanup = append(p.cleanup, func() { repoB.Close() })
 		if err := repoB.AddRemote("a", repoA.GetLocalRemote()); err != nil {
 			panic(err)
 		}
 		if err := identity.Pull(repoB, "a"); err != nil {
-			return Case{Skip: "identity pull: " + err.Error()}
+			return fail("identity pull: " + err.Error())
 		}
 		var identsB []*identity.Identity
 		for _, id := range identsA {
 			x, err := identity.ReadLocal(repoB, id.Id())
 			if err != nil {
-				return Case{Skip: "identity read: " + err.Error()}
+				return fail("identity read: " + err.Error())
 			}
 			identsB = append(identsB, x)
 		}
@@ -897,10 +1038,10 @@ func (c12eDriver) Run(raw json.RawMessage) Case {
 		repo, ids := repos[rp], idents[rp]
 		b, _, err := bug.Create(ids[d.Author%len(ids)], d.T, d.Title, d.Msg, nil, d.Meta)
 		if err != nil {
-			return Case{Skip: "create: " + err.Error()}
+			return fail("create: " + err.Error())
 		}
 		if err := b.Commit(repo); err != nil {
-			return Case{Skip: "commit: " + err.Error()}
+			return fail("commit: " + err.Error())
 		}
 		for _, op := range d.Ops {
 			by := ids[op.By%len(ids)]
@@ -922,14 +1063,14 @@ func (c12eDriver) Run(raw json.RawMessage) Case {
 			case "commit":
 				if b.NeedCommit() {
 					if err := b.Commit(repo); err != nil {
-						return Case{Skip: "commit: " + err.Error()}
+						return fail("commit: " + err.Error())
 					}
 				}
 			}
 		}
 		if b.NeedCommit() {
 			if err := b.Commit(repo); err != nil {
-				return Case{Skip: "commit: " + err.Error()}
+				return fail("commit: " + err.Error())
 			}
 		}
 	}
@@ -938,25 +1079,26 @@ func (c12eDriver) Run(raw json.RawMessage) Case {
 			panic(err)
 		}
 		if _, err := bug.Fetch(repoA, "b"); err != nil {
-			return Case{Skip: "fetch: " + err.Error()}
+			return fail("fetch: " + err.Error())
 		}
 		resolvers := entity.Resolvers{&identity.Identity{}: identity.NewSimpleResolver(repoA)}
 		if err := c12DrainMerge(bug.MergeAll(repoA, resolvers, "b", identsA[0])); err != nil {
-			return Case{Skip: "merge: " + err.Error()}
+			return fail("merge: " + err.Error())
 		}
 	}
 	// the cache, built from the git data (SubCache.Build: excerpts and full-text index from scratch)
 	for ev := range rc.Identities().Build() {
 		if ev.Err != nil {
-			return Case{Skip: "identity cache build: " + ev.Err.Error()}
+			return fail("identity cache build: " + ev.Err.Error())
 		}
 	}
 	for ev := range rc.Bugs().Build() {
 		if ev.Err != nil {
-			return Case{Skip: "bug cache build: " + ev.Err.Error()}
+			return fail("bug cache build: " + ev.Err.Error())
 		}
 	}
 
+	p.identsA, p.needB = identsA, needB
 	identIdx := map[entity.Id]int{}
 	var identTerms []string
 	for i, id := range identsA {
@@ -970,7 +1112,7 @@ func (c12eDriver) Run(raw json.RawMessage) Case {
 	// reference data from the resolved snapshots
 	allIds := rc.Bugs().AllIds()
 	if len(allIds) != len(in.Bugs) {
-		return Case{Skip: fmt.Sprintf("population has %d bugs, expected %d", len(allIds), len(in.Bugs))}
+		return fail(fmt.Sprintf("population has %d bugs, expected %d", len(allIds), len(in.Bugs)))
 	}
 	var idStrs []string
 	for _, id := range allIds {
@@ -978,39 +1120,28 @@ func (c12eDriver) Run(raw json.RawMessage) Case {
 	}
 	rk := rankOf(idStrs)
 	sort.Strings(idStrs)
-	type refBug struct {
-		Id           string            `json:"id"`
-		Rank         int               `json:"rank"`
-		Status       string            `json:"status"`
-		Title        string            `json:"title"`
-		Labels       []string          `json:"labels"`
-		Author       int               `json:"author"`
-		Actors       []int             `json:"actors"`
-		Participants []int             `json:"participants"`
-		Meta         map[string]string `json:"meta"`
-		Keys         [4]uint64         `json:"keys"`
-	}
-	var refs []refBug
+	var refs []c12RefBug
 	var bugTerms []string
-	tieC, tieE := map[[2]uint64]int{}, map[[2]uint64]int{}
+	tieC, tieE := p.tieC, p.tieE
 	nClosed, nLabeled := 0, 0
+	neutral := true
 	for _, ids := range idStrs {
 		bc, err := rc.Bugs().Resolve(entity.Id(ids))
 		if err != nil {
-			return Case{Skip: "resolve: " + err.Error()}
+			return fail("resolve: " + err.Error())
 		}
 		snap := bc.Snapshot()
-		rb := refBug{Id: ids, Rank: rk.m[ids], Status: snap.Status.String(), Title: snap.Title, Meta: bc.FirstOp().AllMetadata()}
+		rb := c12RefBug{Id: ids, Rank: rk.m[ids], Status: snap.Status.String(), Title: snap.Title, Meta: bc.FirstOp().AllMetadata()}
 		cu, eu := bc.FirstOp().Time().Unix(), snap.EditTime().Unix()
 		if cu < 0 || eu < 0 {
-			return Case{Skip: "negative time"}
+			return fail("negative time")
 		}
 		rb.Keys = [4]uint64{uint64(bc.CreateLamportTime()), uint64(cu), uint64(bc.EditLamportTime()), uint64(eu)}
 		tieC[[2]uint64{rb.Keys[0], rb.Keys[1]}]++
 		tieE[[2]uint64{rb.Keys[2], rb.Keys[3]}]++
 		ai, ok := identIdx[snap.Author.Id()]
 		if !ok {
-			return Case{Skip: "unknown author"}
+			return fail("unknown author")
 		}
 		rb.Author = ai
 		for _, a := range snap.Actors {
@@ -1031,8 +1162,10 @@ func (c12eDriver) Run(raw json.RawMessage) Case {
 			nClosed++
 		}
 		lowerOK = lowerOK && c12LowerOK(snap.Title)
+		neutral = neutral && c12Neutral(snap.Title)
 		texts := []string{coqStrs(c12Tokens(snap.Title))}
 		for _, c := range snap.Comments {
+			neutral = neutral && c12Neutral(c.Message)
 			if ts := c12Tokens(c.Message); len(ts) > 0 {
 				texts = append(texts, coqStrs(ts))
 			}
@@ -1051,6 +1184,23 @@ func (c12eDriver) Run(raw json.RawMessage) Case {
 			coqList(labels), coqRunes(snap.Title), coqNats(rb.Actors), coqNats(rb.Participants), coqList(meta), coqList(texts)))
 		refs = append(refs, rb)
 	}
+	p.identTerms, p.bugTerms, p.refs, p.rk = identTerms, bugTerms, refs, rk
+	p.lowerOK, p.neutral, p.nClosed, p.nLabeled = lowerOK, neutral, nClosed, nLabeled
+	return p, ""
+}
+
+func (c12eDriver) Run(raw json.RawMessage) Case {
+	var in c12eInput
+	if err := json.Unmarshal(raw, &in); err != nil || len(in.Idents) == 0 || len(in.Bugs) == 0 {
+		return Case{Skip: "bad input"}
+	}
+	p, why := c12BuildPop(&in)
+	if p == nil {
+		return Case{Skip: why}
+	}
+	defer p.close()
+	rc, identsA, refs, rk, lowerOK, neutral := p.rc, p.identsA, p.refs, p.rk, p.lowerOK, p.neutral
+	identTerms, bugTerms, needB, tieC, tieE, nClosed, nLabeled := p.identTerms, p.bugTerms, p.needB, p.tieC, p.tieE, p.nClosed, p.nLabeled
 	// queries
 	type qObs struct {
 		Query  string   `json:"query"`
@@ -1082,8 +1232,16 @@ func (c12eDriver) Run(raw json.RawMessage) Case {
 			}
 			lowerOK = lowerOK && c12LowerOK(items[i].V.T)
 			tagset["q:"+items[i].K] = true
-			if items[i].K == "search" && strings.Contains(items[i].V.T, " ") {
-				tagset["q:search-phrase"] = true
+			if items[i].K == "search" {
+				neutral = neutral && c12Neutral(items[i].V.T)
+				if strings.Contains(items[i].V.T, " ") {
+					tagset["q:search-phrase"] = true
+				}
+				for _, c := range items[i].V.T {
+					if c != ' ' && !c12Word(c) {
+						tagset["q:search-operators"] = true
+					}
+				}
 			}
 		}
 		s := c12Render(items)
@@ -1136,7 +1294,60 @@ func (c12eDriver) Run(raw json.RawMessage) Case {
 	if !lowerOK {
 		return Case{Skip: "a text uses a code point outside the validated lower-casing table"}
 	}
-	term := fmt.Sprintf("mkecase %s %s %s", coqList(identTerms), coqList(bugTerms), coqList(qTerms))
+	if !neutral {
+		return Case{Skip: "a text or search term is not cut into words by the index as by the model"}
+	}
+	// Excerpt values are immutable: an excerpt obtained before a label change (the one a concurrent Query is
+	// matching) keeps its labels whatever happens to the live bug afterwards. Two bugs, one removal and four
+	// additions each; the added labels sort first, so that an in-place change of a shared array shows.
+	type stabObs struct {
+		Bug    int      `json:"bug"`
+		Change string   `json:"change"`
+		Before []string `json:"before"`
+		After  []string `json:"after"`
+	}
+	var stab []stabObs
+	var stabTerms []string
+	author, aerr := rc.Identities().Resolve(identsA[0].Id())
+	for k := 0; k < len(refs) && k < 2 && aerr == nil; k++ {
+		id := entity.Id(refs[k].Id)
+		bc, err := rc.Bugs().Resolve(id)
+		if err != nil {
+			break
+		}
+		var changes [][2][]string
+		if len(refs[k].Labels) > 0 {
+			changes = append(changes, [2][]string{nil, {refs[k].Labels[0]}})
+		}
+		for j := 3; j >= 0; j-- {
+			changes = append(changes, [2][]string{{fmt.Sprintf("!%d-probe", j)}, nil})
+		}
+		for _, ch := range changes {
+			ex, err := rc.Bugs().ResolveExcerpt(id)
+			if err != nil {
+				break
+			}
+			labelsOf := func() []string {
+				res := []string{}
+				for _, l := range ex.Labels {
+					res = append(res, string(l))
+				}
+				return res
+			}
+			before := labelsOf()
+			if _, _, err := bc.ChangeLabelsRaw(author, 2000, ch[0], ch[1], nil); err != nil {
+				break
+			}
+			after := labelsOf()
+			o := stabObs{Bug: refs[k].Rank, Change: fmt.Sprintf("+%v -%v", ch[0], ch[1]), Before: before, After: after}
+			stab = append(stab, o)
+			stabTerms = append(stabTerms, coqPair(coqStrs(before), coqStrs(after)))
+			if fmt.Sprint(before) != fmt.Sprint(after) {
+				tagset["excerpt-changed-after-the-fact"] = true
+			}
+		}
+	}
+	term := fmt.Sprintf("mkecase %s %s %s %s", coqList(identTerms), coqList(bugTerms), coqList(qTerms), coqList(stabTerms))
 	tags := []string{fmt.Sprintf("idents:%d", len(identsA))}
 	switch n := len(refs); {
 	case n <= 3:
@@ -1172,6 +1383,6 @@ func (c12eDriver) Run(raw json.RawMessage) Case {
 		tags = append(tags, t)
 	}
 	sort.Strings(tags)
-	return Case{Coq: term, Obs: map[string]interface{}{"bugs": refs, "queries": qobs}, Tags: tags,
+	return Case{Coq: term, Obs: map[string]interface{}{"bugs": refs, "queries": qobs, "excerpts": stab}, Tags: tags,
 		NonTrivial: partial > 0 || nonEmpty > 0, Key: string(raw)}
 }
